@@ -58,6 +58,7 @@ Counter f_devfail("fault.stream.fail");
 Counter f_unbuffered("fault.stream.unbuffered");
 Counter f_tinybuf("fault.stream.tinybuf");
 Counter f_bigbuf("fault.stream.buffered");
+Counter p_crowd("probe.run_with_more_than_256_threads");
 Counter p_unwinding("probe.statement_issued_during_stack_unwinding");
 Counter p_static_init("probe.statement_issued_during_static_initialisation");
 Counter p_nothing_streamed("probe.statement_with_nothing_streamed");
@@ -138,7 +139,7 @@ struct G
     TCtx tctx[MAXT];
     int th[3] = { 0, 0, 0 };
     uint32_t seq = 1;
-    uint32_t tseq[MAXT] = { 0, 0, 0, 0 }; // per-thread event counters
+    uint32_t tseq[MAXT] = {}; // per-thread event counters
     int logger = 0;
     bool stop = false;
     Violation v;
@@ -1055,8 +1056,12 @@ public:
         p.knobs.emplace_back("min", MIN);
         p.knobs.emplace_back("logger", logger);
         int nthreads = c09 ? rng.range(2, 4) : rng.range(1, 4);
+        bool many = c09 && rng.chance(1, 600); // a crowd: more threads than any small counter can hold
+        if (many)
+            nthreads = rng.range(258, 300);
         p.knobs.emplace_back("threads", nthreads);
-        int strategy = rng.chance(1, 2) ? 1 : 0;
+        p.knobs.emplace_back("stall_first_writer", many);
+        int strategy = (many || rng.chance(1, 2)) ? 1 : 0;
         p.knobs.emplace_back("strategy", strategy);
         static const unsigned SW[] = { 1, 2, 4, 8, 12, 16 };
         p.knobs.emplace_back("switch16", SW[rng.below(6)]);
@@ -1128,6 +1133,18 @@ public:
         std::vector<std::vector<Op>> prog(static_cast<size_t>(nthreads));
         for (int t = 0; t < nthreads; t++)
         {
+            if (many)
+            {
+                // one short, always enabled statement per thread
+                Op op;
+                op.kind = K_STMT;
+                op.a[0] = t;
+                op.a[1] = 5;
+                op.a[2] = 0;
+                op.s = "i" + std::to_string(t);
+                prog[static_cast<size_t>(t)].push_back(op);
+                continue;
+            }
             int nst = rng.range(1, 5);
             bool slot_open[2] = { false, false };
             int remaining[2] = { 0, 0 };
@@ -1329,6 +1346,9 @@ public:
         bool replaying = !plan.choices.empty() || plan.knob("replay_default", 0);
         sch.begin_run(nthreads, &srng, replaying ? &plan.choices : nullptr, strategy,
                       static_cast<unsigned>(plan.knob("switch16", 4)), pct, prios);
+        sch.stall_first_writer = plan.knob("stall_first_writer", 0) != 0;
+        if (nthreads > 8)
+            p_crowd++;
         sch.alloc_yield = plan.knob("alloc_yield", 0) != 0;
         sch.timeout_num = static_cast<unsigned>(plan.knob("lock_timeout8", 0) % 8);
         sch.timeout_state = sseed ^ 0x71AE;
